@@ -135,8 +135,14 @@ func (t *QuicTransport) exchangeStream(ctx context.Context, payload []byte, stre
 		err  error
 	}
 	rc := make(chan res, 1)
+
+	// The goroutine may still be writing when ctx is done and the caller
+	// releases payload. Let it work on its own copy, and keep its error local
+	// instead of sharing the named result with the returning caller.
+	payloadCopy := copyMsg(payload)
 	go func() {
-		_, err = stream.Write(payload)
+		defer pool.ReleaseBuf(payloadCopy)
+		_, err := stream.Write(payloadCopy)
 		if err != nil {
 			stream.CancelRead(_DOQ_REQUEST_CANCELLED)
 			stream.CancelWrite(_DOQ_REQUEST_CANCELLED)
